@@ -2,6 +2,7 @@
 import VDriver.Util
 import VModel.ConcDns
 import VModel.ConcFetch
+import VModel.ConcVerify
 namespace V.Driver.ConcOps
 open V V.Driver V.Conc
 
@@ -504,6 +505,210 @@ def handleTransport (args : List String) : Option String :=
   | [script, impl] => some (transportModel script ++ "\t" ++ transportSpec script impl)
   | _ => some "bad-op"
 
+/-! ## concurrent VerifyJSONs calls on one key ring with one shared key database
+
+op line:  conc.verify2  <cfg>  <sched>  <impl outcome>      (see harness/conc_verify.go)
+  cfg     <db>|<world>|<caller>;<caller>[;<caller>]
+          db, world : per server s0, s1, … the entry of (s<i>, ed25519:a): `-` | <slot 0|1><validity F|S|X>
+          caller    : <fetch E|W|_>:<request>+…   request = <server><at o|n><rule s|l>
+  sched   p, q, r = caller 0, 1, 2 runs to its next barrier (R database read, F fetcher, S database store; D = returned);
+          afterwards every caller that has not returned is moved until it has, caller 0 first
+  outcome <trace>#<verdicts>/<verdicts>…#<final database>
+
+Model: `Verify.poke` move by move (VModel/ConcVerify.lean).
+Specification (the property: "yields for every caller the result a sequential execution would give"; "stores what it
+fetched"): the sequential executions are the orders of the callers that keep every caller which RETURNED before another
+one STARTED in front of it (read off the implementation's trace), each call run alone on the database the previous
+ones left (`Verify.serial`, i.e. the sequential model of C12).
+  * where at most one caller's fetcher answers (all others fail or answer nothing), the outcome — every caller's
+    verdicts and the final database together — must be the outcome of ONE of these orders (theorem
+    `V.C19.verify_serializable_one_writer`);
+  * where several callers' fetchers answer, every caller's verdicts must be those it gets in some such order, and the
+    final database that of some such order.
+Nothing may hang. -/
+
+namespace V2
+open V.KeyRing V.Conc.Verify
+
+def v2Now : Nat := 100000000
+def v2Kid : Bytes := strBytes "ed25519:a"
+def v2Srv (i : Nat) : Bytes := strBytes s!"s{i}"
+def v2Key (i j : Nat) : Bytes := List.replicate 32 (UInt8.ofNat (10 * i + j))
+
+def parseEntry (i : Nat) (s : String) : Option (Option (KeyReq × KeyRes)) :=
+  match s.toList with
+  | ['-'] => some none
+  | [sl, v] =>
+    let j := sl.toNat - '0'.toNat
+    if sl != '0' && sl != '1' then none else
+    let q : KeyReq := ⟨v2Srv i, v2Kid⟩
+    if v == 'F' then some (some (q, ⟨v2Key i j, 0, v2Now + 3600000⟩))
+    else if v == 'S' then some (some (q, ⟨v2Key i j, 0, v2Now - 3600000⟩))
+    else if v == 'X' then some (some (q, ⟨v2Key i j, v2Now - 7200000, 0⟩))
+    else none
+  | _ => none
+
+def parseEntries (s : String) : Option (Nat × KeyMap) :=
+  let parts := s.splitOn ","
+  let rec go : List String → Nat → KeyMap → Option KeyMap
+    | [], _, acc => some acc.reverse
+    | e :: rest, i, acc =>
+      match parseEntry i e with
+      | none => none
+      | some none => go rest (i + 1) acc
+      | some (some x) => go rest (i + 1) (x :: acc)
+  (go parts 0 []).map (fun m => (parts.length, m))
+
+def parseReq (n : Nat) (s : String) : Option Request :=
+  match s.toList with
+  | [d, a, r] =>
+    let i := d.toNat - '0'.toNat
+    if d < '0' || i ≥ n || (a != 'o' && a != 'n') || (r != 's' && r != 'l') then none else
+    some { server := v2Srv i, atTS := if a == 'o' then v2Now - 10800000 else v2Now - 60000, strict := r == 's', listOk := true,
+           sigs := [{ keyID := v2Kid, reaches := true, verifies := fun k => k == v2Key i 0 }] }
+  | _ => none
+
+/-- (the caller, whether its fetcher answers the world) -/
+def parseCaller (n : Nat) (world : KeyMap) (s : String) : Option (Caller × Bool) :=
+  match s.splitOn ":" with
+  | [f, rs] =>
+    let script : Option FetchScript := if f == "E" then some none else if f == "W" then some (some world) else if f == "_" then some (some []) else none
+    match script, (if rs == "" then some [] else (rs.splitOn "+").mapM (parseReq n)) with
+    | some sc, some reqs => some (⟨reqs, [sc]⟩, f == "W")
+    | _, _ => none
+  | _ => none
+
+structure Cfg where
+  n : Nat
+  db : KeyMap
+  callers : List Caller
+  writers : Nat
+
+def parseCfg (s : String) : Option Cfg :=
+  match s.splitOn "|" with
+  | [d, w, cs] =>
+    match parseEntries d, parseEntries w with
+    | some (n, db), some (n', world) =>
+      if n != n' || n > 3 then none else
+      match (cs.splitOn ";").mapM (parseCaller n world) with
+      | some l => if l.length < 1 || l.length > 3 then none else some ⟨n, db, l.map (·.1), (l.filter (·.2)).length⟩
+      | none => none
+    | _, _ => none
+  | _ => none
+
+def showObs : Obs → Char
+  | .R => 'R' | .F => 'F' | .S => 'S' | .D => 'D' | .nop => '-'
+
+def showRes : Except CallErr (List Bool) → String
+  | .ok bits => if bits.isEmpty then "_" else String.ofList (bits.map (fun b => if b then '1' else '0'))
+  | .error _ => "err"
+
+def showEntry (i : Nat) (r : KeyRes) : String :=
+  let slot := if r.key == v2Key i 0 then "0" else if r.key == v2Key i 1 then "1" else "?"
+  if r.expiredTS == 0 && r.validUntilTS == v2Now + 3600000 then slot ++ "F"
+  else if r.expiredTS == 0 && r.validUntilTS == v2Now - 3600000 then slot ++ "S"
+  else if r.expiredTS == v2Now - 7200000 && r.validUntilTS == 0 then slot ++ "X"
+  else slot ++ "?"
+
+def showDB (n : Nat) (db : KeyMap) : String :=
+  String.intercalate "," ((List.range n).map (fun i =>
+    match AList.lookup (⟨v2Srv i, v2Kid⟩ : KeyReq) db with
+    | some r => showEntry i r
+    | none => "-"))
+
+/-- the moves after the schedule: every caller that has not returned is moved until it has (at most 4 moves) -/
+def finish (cs : List Caller) (k : Nat) (s : State) (tr : List Char) : State × List Char :=
+  (List.range k).foldl (fun (acc : State × List Char) g =>
+    (List.range 4).foldl (fun (a : State × List Char) _ =>
+      match a.1.pcs[g]? with
+      | some (PC.done _) => a
+      | _ => let (s', o) := poke cs v2Now a.1 g; (s', showObs o :: a.2)) acc) (s, tr)
+
+def model (c : Cfg) (sched : List Char) : String :=
+  let k := c.callers.length
+  let (s1, tr1) := sched.foldl (fun (acc : State × List Char) ch =>
+      let (s', o) := poke c.callers v2Now acc.1 (ch.toNat - 'p'.toNat); (s', showObs o :: acc.2)) (init c.db k, [])
+  let (s2, tr2) := finish c.callers k s1 tr1
+  let verdicts := (List.range k).map (fun g => match resultOf s2 g with | some r => showRes r | none => "?")
+  String.ofList tr2.reverse ++ "#" ++ String.intercalate "/" verdicts ++ "#" ++ showDB c.n s2.db
+
+def permsAux : Nat → List Nat → List (List Nat)
+  | 0, _ => [[]]
+  | _, [] => [[]]
+  | fuel + 1, l => l.flatMap (fun x => (permsAux fuel (l.filter (· != x))).map (x :: ·))
+
+def perms (l : List Nat) : List (List Nat) := permsAux l.length l
+
+/-- per caller: (index of its first move, index of the move with which it returned), read off the implementation's trace;
+    the moves after the schedule are reconstructed as the harness makes them -/
+def spans (k : Nat) (sched : List Char) (trace : List Char) : List (Option Nat × Option Nat) :=
+  let note (sp : List (Option Nat × Option Nat)) (g i : Nat) (o : Char) : List (Option Nat × Option Nat) :=
+    match sp[g]? with
+    | none => sp
+    | some (st, en) =>
+      let st' := if st.isNone && o != '-' then some i else st
+      let en' := if o == 'D' then some i else en
+      sp.set g (st', en')
+  let tr := trace.toArray
+  let sp0 : List (Option Nat × Option Nat) := List.replicate k (none, none)
+  let (sp1, pos) := sched.foldl (fun (acc : List (Option Nat × Option Nat) × Nat) ch =>
+      (note acc.1 (ch.toNat - 'p'.toNat) acc.2 (tr[acc.2]?.getD '?'), acc.2 + 1)) (sp0, 0)
+  let (sp2, _) := (List.range k).foldl (fun (acc : List (Option Nat × Option Nat) × Nat) g =>
+      (List.range 4).foldl (fun (a : List (Option Nat × Option Nat) × Nat) _ =>
+        match a.1[g]? with
+        | some (_, some _) => a
+        | _ => if a.2 < tr.size then (note a.1 g a.2 (tr[a.2]?.getD '?'), a.2 + 1) else a) acc) (sp1, pos)
+  sp2
+
+/-- `g` returned before `h` started -/
+def precedes (sp : List (Option Nat × Option Nat)) (g h : Nat) : Bool :=
+  match sp[g]?, sp[h]? with
+  | some (_, some e), some (some s, _) => decide (e < s)
+  | _, _ => false
+
+def respects (sp : List (Option Nat × Option Nat)) (order : List Nat) : Bool :=
+  let rec go : List Nat → Bool
+    | [] => true
+    | x :: rest => rest.all (fun y => !precedes sp y x) && go rest
+  go order
+
+def spec (c : Cfg) (sched : List Char) (impl : String) : String :=
+  match impl.splitOn "#" with
+  | [tr, vs, dbs] =>
+    if tr.toList.contains 'H' then "violates:a-call-never-reached-its-next-barrier(hang)" else
+    let k := c.callers.length
+    let sp := spans k sched tr.toList
+    if sp.any (fun p => p.2.isNone) then "violates:a-call-never-returned" else
+    let orders := (perms (List.range k)).filter (respects sp)
+    let outcomes := orders.map (fun o =>
+      let (rs, db) := serial c.callers v2Now o c.db
+      ((List.range k).map (fun g => match rs.find? (fun (p : Nat × Except CallErr (List Bool)) => p.1 == g) with | some (_, r) => showRes r | none => "?"), showDB c.n db))
+    let implV := vs.splitOn "/"
+    let seqs := String.intercalate "|" (outcomes.map (fun o => String.intercalate "/" o.1 ++ "#" ++ o.2))
+    if c.writers ≤ 1 then
+      if outcomes.any (fun o => o.1 == implV && o.2 == dbs) then impl
+      else "violates:outcome-of-no-sequential-order(sequential:" ++ seqs ++ ")"
+    else
+      let badCaller := (List.range k).find? (fun g => !outcomes.any (fun o => o.1[g]? == implV[g]?))
+      match badCaller with
+      | some g => s!"violates:caller-{g}-holds-a-result-of-no-sequential-order(sequential:" ++ seqs ++ ")"
+      | none =>
+        if outcomes.any (fun o => o.2 == dbs) then impl
+        else "violates:final-database-of-no-sequential-order(sequential:" ++ seqs ++ ")"
+  | _ => "violates:no-result"
+
+end V2
+
+def handleVerify2 (args : List String) : Option String :=
+  match args with
+  | [cfg, sched, impl] =>
+    match V2.parseCfg cfg with
+    | some c =>
+      if sched.toList.any (fun ch => ch < 'p' || ch.toNat - 'p'.toNat ≥ c.callers.length) then some "bad-op" else
+      some (V2.model c sched.toList ++ "\t" ++ V2.spec c sched.toList impl)
+    | none => some "bad-op"
+  | _ => some "bad-op"
+
 /-! ## getTransport: the model of a sequence of locked regions; race-detector ops have the model outcome `clean` -/
 
 def handle (op : String) (args : Array String) : Option String :=
@@ -514,6 +719,7 @@ def handle (op : String) (args : Array String) : Option String :=
   | "fetchbig" => handleFetch false args.toList
   | "fetch2" => handleFetch2 args.toList
   | "transport" => handleTransport args.toList
+  | "verify2" => handleVerify2 args.toList
   | "race_dns" | "race_fetch" | "race_transport" | "race_event_readonly" | "race_eventid" => some "clean\tclean"
   | _ => none
 
